@@ -23,15 +23,27 @@ pub fn strategy() -> BoxedStrategy<Case> {
         issue_spec_strategy(ClaimCfg::SHORT_F64, HONEST_PATHS, prop_oneof![3 => Just(HolderKey::None), 1 => Just(HolderKey::Ec)].boxed()),
         choices_strategy(),
         proptest::collection::vec(choices_strategy(), 0..4),
+        prop::option::weighted(0.4, (choices_strategy(), proptest::collection::vec(choices_strategy(), 1..3))),
     )
-        .prop_map(|(issue, ch, steps)| {
+        .prop_map(|(issue, ch, steps, alt)| {
             let first = selection_for(&issue, &ch, SelOpts { allow_null: true });
             let mut chain = vec![first];
             for s in steps {
                 let next = narrow_selection(chain.last().unwrap(), &mut Choices::new(&s));
                 chain.push(next);
             }
-            C15Case { issue, chain: chain.into_iter().map(Value::Object).collect() }
+            let alt_chain = match alt {
+                None => vec![],
+                Some((c, st)) => {
+                    let mut a = vec![selection_for(&issue, &c, SelOpts { allow_null: true })];
+                    for s in st {
+                        let next = narrow_selection(a.last().unwrap(), &mut Choices::new(&s));
+                        a.push(next);
+                    }
+                    a.into_iter().map(Value::Object).collect()
+                }
+            };
+            C15Case { issue, chain: chain.into_iter().map(Value::Object).collect(), alt_chain }
         })
         .boxed()
 }
